@@ -43,7 +43,13 @@
    decidable condition on the run.
    NOT proved: for stree programs, that the pending items of S are in scheduled unflushed batches (MachineC04B is
    for tree programs only); anything for programs with shared futures (DAGs), .value() on futures that are not
-   fresh tasks, and the MAX_TASK_STACK_SIZE reset (correspondence + monitors in harness/props/c04.py). *)
+   fresh tasks, and the MAX_TASK_STACK_SIZE reset (correspondence + monitors in harness/props/c04.py).
+   WITHOUT THE HYPOTHESIS no_unwind FOR stree PROGRAMS (end of the file; proofs/MachineGuardFormsS.v): the stree
+   theorems whose hypothesis is no_unwind P n (start h s1) are restated with "the MAX_TASK_STACK_SIZE guard has not
+   fired before step n" in its place (MachineNoUnwind.stree_no_unwind_iff_guard_silent):
+   C04_flush_point_shape_stree_guard, C04_flush_only_when_settled_stree_guard,
+   C04_flush_only_when_stuck_stree_if_no_stale_item_guard, C04_reachable_is_computed_or_settled_stree_guard,
+   C04_reachable_is_computed_or_stuck_stree_if_no_stale_item_guard. *)
 From Asynq Require Import Machine Seq proofs.MachineC08 proofs.MachineC01 proofs.MachineC01S proofs.MachineC04 proofs.MachineC04B
      proofs.MachineC04S.
 
@@ -249,3 +255,87 @@ Theorem C04_stuck_items_are_in_pending_scheduled_batches_tree_guard : forall P, 
       b_done (get_batch (kind, idx) (c_st (run P n (start h s1)))) = false.
 Proof. exact flush_only_when_stuck_pending_tree_guard. Qed.
 Print Assumptions C04_stuck_items_are_in_pending_scheduled_batches_tree_guard.
+
+(* ==== the stree theorems WITHOUT an assumption about exceptions unwinding (proofs/MachineNoUnwind.v, MachineGuardFormsS.v) ====
+   [no_unwind P n (start h s1)] is replaced by "the MAX_TASK_STACK_SIZE guard has not fired before step n"; also with
+   synchronous calls FutureIsAlreadyComputed is proved unreachable (stree_no_unwind_iff_guard_silent), so the guard's
+   RuntimeError is the only exception that can unwind through asynq's frames.  Binders and conclusions are those of
+   the theorems of the same name without the suffix _guard. *)
+From Asynq Require Import proofs.MachineNoUnwind proofs.MachineGuardFormsS.
+Theorem C04_flush_point_shape_stree_guard : forall P, pointwise P -> forall p, stree p -> forall n,
+  let h := fst (create [] (FTask p) (st0 P)) in
+  let s1 := snd (create [] (FTask p) (st0 P)) in
+  (forall k, (k < n)%nat -> guard_fires P (run P k (start h s1)) = false) ->
+  c_mode (run P n (start h s1)) = MAfterExec ->
+  exists r vs, c_frames (run P n (start h s1)) = FWait r :: vs.
+Proof. exact flush_point_shape_stree_guard. Qed.
+Print Assumptions C04_flush_point_shape_stree_guard.
+
+Theorem C04_flush_only_when_settled_stree_guard : forall P, pointwise P -> forall p, stree p -> forall n r vs,
+  let h := fst (create [] (FTask p) (st0 P)) in
+  let s1 := snd (create [] (FTask p) (st0 P)) in
+  (forall k, (k < n)%nat -> guard_fires P (run P k (start h s1)) = false) ->
+  c_mode (run P n (start h s1)) = MAfterExec ->
+  c_frames (run P n (start h s1)) = FWait r :: vs -> computed r (c_st (run P n (start h s1))) = false ->
+  let s := c_st (run P n (start h s1)) in
+  exists S : fid -> Prop, S r /\
+    (forall d, S d ->
+       (exists tk, get d s = Some (mkFut None (KTask tk)) /\ (1 <= tk_iter tk)%Z /\
+                   (exists e, In e (tk_deps tk) /\ S e) /\
+                   (forall e, In e (tk_deps tk) -> computed e s = true \/ S e)) \/
+       (exists o kind idx key a, get d s = Some (mkFut o (KItem kind idx key a)))) /\
+    (forall d, S d -> ~ In d (tasks s)) /\
+    ((forall d o kind idx key a, S d -> get d s = Some (mkFut o (KItem kind idx key a)) -> o = None) ->
+     forall d, S d ->
+       (exists tk, get d s = Some (mkFut None (KTask tk)) /\ (1 <= tk_iter tk)%Z /\
+                   (exists e, In e (tk_deps tk) /\ S e) /\
+                   (forall e, In e (tk_deps tk) -> computed e s = true \/ S e)) \/
+       (exists kind idx key a, get d s = Some (mkFut None (KItem kind idx key a)))).
+Proof. exact flush_only_when_settled_stree_guard. Qed.
+Print Assumptions C04_flush_only_when_settled_stree_guard.
+
+Theorem C04_flush_only_when_stuck_stree_if_no_stale_item_guard : forall P, pointwise P -> forall p, stree p -> forall n r vs,
+  let h := fst (create [] (FTask p) (st0 P)) in
+  let s1 := snd (create [] (FTask p) (st0 P)) in
+  (forall k, (k < n)%nat -> guard_fires P (run P k (start h s1)) = false) ->
+  c_mode (run P n (start h s1)) = MAfterExec ->
+  c_frames (run P n (start h s1)) = FWait r :: vs -> computed r (c_st (run P n (start h s1))) = false ->
+  (forall e o kind idx key a, get e (c_st (run P n (start h s1))) = Some (mkFut (Some o) (KItem kind idx key a)) ->
+     forall d tk, get d (c_st (run P n (start h s1))) = Some (mkFut None (KTask tk)) -> ~ In e (tk_deps tk)) ->
+  exists S : fid -> Prop, S r /\ (forall d, S d -> S_ok S (c_st (run P n (start h s1))) d) /\
+    (forall d, S d -> ~ In d (tasks (c_st (run P n (start h s1))))).
+Proof. exact flush_only_when_stuck_stree_if_no_stale_item_guard. Qed.
+Print Assumptions C04_flush_only_when_stuck_stree_if_no_stale_item_guard.
+
+Theorem C04_reachable_is_computed_or_settled_stree_guard : forall P, pointwise P -> forall p, stree p -> forall n r vs,
+  let h := fst (create [] (FTask p) (st0 P)) in
+  let s1 := snd (create [] (FTask p) (st0 P)) in
+  (forall k, (k < n)%nat -> guard_fires P (run P k (start h s1)) = false) ->
+  c_mode (run P n (start h s1)) = MAfterExec ->
+  c_frames (run P n (start h s1)) = FWait r :: vs -> computed r (c_st (run P n (start h s1))) = false ->
+  forall d, reach (c_st (run P n (start h s1))) r d ->
+    computed d (c_st (run P n (start h s1))) = true \/
+    (exists kind idx key a, get d (c_st (run P n (start h s1))) = Some (mkFut None (KItem kind idx key a))) \/
+    (exists tk, get d (c_st (run P n (start h s1))) = Some (mkFut None (KTask tk)) /\ (1 <= tk_iter tk)%Z /\
+                ~ In d (tasks (c_st (run P n (start h s1)))) /\
+                (is_blocked tk (c_st (run P n (start h s1))) = true \/
+                 exists e o kind idx key a, In e (tk_deps tk) /\
+                   get e (c_st (run P n (start h s1))) = Some (mkFut (Some o) (KItem kind idx key a)))).
+Proof. exact reachable_is_computed_or_settled_stree_guard. Qed.
+Print Assumptions C04_reachable_is_computed_or_settled_stree_guard.
+
+Theorem C04_reachable_is_computed_or_stuck_stree_if_no_stale_item_guard : forall P, pointwise P -> forall p, stree p -> forall n r vs,
+  let h := fst (create [] (FTask p) (st0 P)) in
+  let s1 := snd (create [] (FTask p) (st0 P)) in
+  (forall k, (k < n)%nat -> guard_fires P (run P k (start h s1)) = false) ->
+  c_mode (run P n (start h s1)) = MAfterExec ->
+  c_frames (run P n (start h s1)) = FWait r :: vs -> computed r (c_st (run P n (start h s1))) = false ->
+  (forall e o kind idx key a, get e (c_st (run P n (start h s1))) = Some (mkFut (Some o) (KItem kind idx key a)) ->
+     forall d tk, get d (c_st (run P n (start h s1))) = Some (mkFut None (KTask tk)) -> ~ In e (tk_deps tk)) ->
+  forall d, reach (c_st (run P n (start h s1))) r d ->
+    computed d (c_st (run P n (start h s1))) = true \/
+    (exists kind idx key a, get d (c_st (run P n (start h s1))) = Some (mkFut None (KItem kind idx key a))) \/
+    (exists tk, get d (c_st (run P n (start h s1))) = Some (mkFut None (KTask tk)) /\ (1 <= tk_iter tk)%Z /\
+                is_blocked tk (c_st (run P n (start h s1))) = true).
+Proof. exact reachable_is_computed_or_stuck_stree_if_no_stale_item_guard. Qed.
+Print Assumptions C04_reachable_is_computed_or_stuck_stree_if_no_stale_item_guard.
